@@ -633,6 +633,7 @@ def run(P, R, tier):
     implicitsides_rule(P, R)
     pairreset_rule(P, R)
     genmix_rule(P, R)
+    heatpair_rule(P, R)
     R.undecided += ["conservation of the column inventory over shifts (mixing-factor arithmetic)", "bounded mixing / convexity",
                     "stagnant zones, multicomponent diffusion, boundary conditions, reactive solids"]
     R.rule("C11.shift", "in-place advective shift loops over the solution store walk against the copy direction (each source is read before it is overwritten)", minimum=2)
@@ -695,3 +696,58 @@ def run(P, R, tier):
                     R.ok("C11.shift", inst + ":start", "starts at the downstream end (%s)" % st)
                 else:
                     R.violation("C11.shift", inst + ":start", "the shift loop does not start at the downstream end of the column (start `%s`)" % st, **where)
+
+
+def heatpair_rule(P, R):
+    """mix_stag exchanges heat between a mobile cell and its stagnant partner: the new temperature of each side is the mixture
+    f * T(other) + (1 - f) * T(own) with that side's factor (heat_mix_f_m, heat_mix_f_imm).  What one side gains the other loses only
+    if BOTH results are stored: each expression built with a heat_mix_f_* factor must reach Set_tc of a solution, directly or through a
+    local that is not reassigned in between.  (The stagnant side's value was computed into t_imm and overwritten by the statement that
+    should have stored it: heat was created, 10 C and 60 C cells met at 56.6 C instead of 35 C.)"""
+    RULE = "C11.heatpair"
+    R.rule(RULE, "mix_stag: the temperature computed with each heat-exchange factor is stored with Set_tc (both partners change)", minimum=2)
+    f = P.one("Phreeqc::mix_stag")
+    n = 0
+    for blk in T.walk(f["body"]):
+        if blk[0] != "Compound":
+            continue
+        stmts = blk[2]
+        for k, st in enumerate(stmts):
+            if not T.is_node(st):
+                continue
+            # direct: X->Set_tc(<expr with factor>)
+            for c in T.calls(st) if st[0] in ("Call",) else []:
+                pass
+            facs = sorted({y[2].split("::")[-1] for y in T.walk(st) if y[0] == "Member" and y[2].split("::")[-1].startswith("heat_mix_f_")})
+            if not facs:
+                continue
+            if st[0] == "Call" and T.callee_name(st) == "Set_tc":
+                n += 1
+                R.ok(RULE, "%s@%d" % (facs[0], st[1] - f["line"]), "stored directly with %s" % T.text(st)[:40])
+                continue
+            if st[0] == "Bin" and st[2] == "=":
+                tgt = T.strip_casts(st[3])
+                if not (T.is_node(tgt) and tgt[0] == "Ref" and tgt[2] == "local"):
+                    continue
+                n += 1
+                inst = "%s@%d" % (facs[0], st[1] - f["line"])
+                stored = killed = None
+                for nx in stmts[k + 1:]:
+                    if not T.is_node(nx):
+                        continue
+                    uses = [c for c in T.calls(nx) if T.callee_name(c) == "Set_tc" and any(y[0] == "Ref" and y[3] == tgt[3] for a in c[4] for y in T.walk(a))]
+                    writes = [w for t, how, line, w in T.writes(nx) if T.is_node(T.strip_casts(t)) and T.strip_casts(t)[0] == "Ref" and T.strip_casts(t)[3] == tgt[3]]
+                    if uses and not writes:
+                        stored = nx[1]
+                        break
+                    if writes:
+                        killed = nx[1]
+                        break
+                if stored:
+                    R.ok(RULE, inst, "%s stored with Set_tc at line %d" % (tgt[3], stored))
+                else:
+                    R.violation(RULE, inst, "the temperature computed with %s into `%s` (line %d) is %s before any Set_tc receives it: one partner of the heat exchange keeps its "
+                                "temperature, heat is created or lost" % (facs[0], tgt[3], st[1], "overwritten at line %d" % killed if killed else "never stored"),
+                                file=f["file"], line=st[1], function=f["q"])
+    if n < 2:
+        R.anchor_missing(RULE, "mix_stag: only %d temperatures computed with heat_mix_f_* factors" % n)
